@@ -14,7 +14,7 @@ from ..shard import rng_for
 from .. import work
 from ..gen import soup
 from ..mon import budget
-from ..util import ddmin_string
+from ..util import ddmin_string, converter, drop_converters
 from ..rec import Recorder
 from pylatexenc.latex2text import LatexNodes2Text
 
@@ -96,15 +96,19 @@ def convert(s, opts, rec):
     budget.begin(budget.limit_for(s, A=600, B=6000))
     try:
         with budget.watchdog(20):
-            t = LatexNodes2Text(**opts).latex_to_text(s)
+            t = converter(opts, s, rec).latex_to_text(s)
         return 'ok', t
     except budget.StepBudgetExceeded as e:
+        drop_converters()
         return 'budget', str(e)
     except budget.WatchdogExpired as e:
+        drop_converters()
         return 'watchdog', str(e)
     except RecursionError as e:
+        drop_converters()
         return 'recursion', e
     except Exception as e:
+        drop_converters()
         return 'exc', e
     finally:
         n = budget.end()
